@@ -181,16 +181,33 @@ def rule_hash_vs_make(ctx):
             exp_o.append(("ep", "get_previous_en_passant_square"))
         if "ne:get_next_en_passant_square" in eqs:
             exp_o.append(("ep", "get_next_en_passant_square"))
-        # rights
+        # rights: predicates the path did not evaluate are "don't care": the path serves every completion, so the
+        # toggles must be right for each of them
+        exp_o_alts = [list(exp_o)]
         if bk is not None:
             rights, table, problems = bk
-            assign = tuple(bool(preds.get(n.replace("get_", "is_"), False)) for n in rights)
-            row = table.get(assign, {})
-            mover_idx = "1"   # make: players fetched after the turn flip
-            for (ridx, flag), eff in row.items():
-                if eff == "set-false":
-                    exp_o.append(("right", "mover" if ridx == mover_idx else "opponent", flag))
-        ok_other = sorted(exp_o, key=repr) == others
+            from itertools import product
+            names = [n.replace("get_", "is_") for n in rights]
+            free = [n for n in names if n not in preds]
+            exp_o_alts = []
+            for comp in product((False, True), repeat=len(free)):
+                full_preds = dict(preds)
+                full_preds.update(dict(zip(free, comp)))
+                assign = tuple(bool(full_preds.get(n, False)) for n in names)
+                row = table.get(assign, {})
+                alt = list(exp_o)
+                for (ridx, flag), eff in row.items():
+                    if eff == "set-false":
+                        alt.append(("right", "mover" if ridx == "1" else "opponent", flag))
+                exp_o_alts.append((alt, full_preds))
+        else:
+            exp_o_alts = [(list(exp_o), dict(preds))]
+        bad_alt = [(alt, fp) for alt, fp in exp_o_alts if sorted(alt, key=repr) != others]
+        if bad_alt:
+            exp_o, preds_show = bad_alt[0]
+        else:
+            exp_o, preds_show = exp_o_alts[0]
+        ok_other = not bad_alt
         # pawn delta: the pawn / side / e.p. part of the full delta
         exp_pawn = sorted([x for x in got_p if x[2] == ("const", PAWN)] + [x for x in exp_o if x[0] in ("side", "ep")], key=repr)
         got_pawn = sorted([(("piece", x[1], x[2], FX.base_name_sq(x[3])) if x[0] == "piece" else x) for x in pawn], key=repr)
@@ -206,7 +223,7 @@ def rule_hash_vs_make(ctx):
         if not ok_piece:
             msg += "piece-square keys toggled %s, but make changes %s; " % (sorted(map(lambda x: (x[1], x[2][1], x[3]), got_p), key=repr), sorted(map(lambda x: (x[1], x[2][1], x[3]), exp), key=repr))
         if not ok_other:
-            msg += "side/e.p./rights keys toggled %s, expected %s; " % (others, sorted(exp_o, key=repr))
+            msg += "side/e.p./rights keys toggled %s, but for a move with %s make clears rights so that %s is expected; " % (others, {k: v for k, v in preds_show.items() if v}, sorted(exp_o, key=repr))
         if not ok_pawn:
             msg += "pawn delta toggles %s, expected the pawn/side/e.p. part %s" % (got_pawn, exp_pawn)
         ctx.ob(rid, label, ok, "" if ok else "zobrist_xor, move kind %s: %s" % (cls, msg), ctx.where(f),
